@@ -111,6 +111,8 @@ def gen_params(rng, cls, shape, N, pid, faults):
         kmax = min(shape) - 1
         p["k"] = rng.choice([1, 1, 2, 3]) if kmax >= 3 else 1
         p["k"] = max(1, min(p["k"], kmax))
+        if fam == "pcovcur" and p.get("mixing") == 0.0 and pid != "C01":
+            p["k"] = 1  # the modified matrix has rank 1 (single target): k > 1 is degenerate
         p["recompute_every"] = rng.choice([0, 1, 1, 2, 3]) if pid == "C01" else rng.choice([0, 1, 1])
         if rng.random() < 0.2:
             p["tolerance"] = rng.choice([1e-10, 1e-14])
